@@ -33,7 +33,8 @@ META = {
               "events), a GPIO peripheral or a nested decoder (depth <= 3); named/anonymous, implicit / explicit "
               "window-size-aligned addresses, align_to, seeded orders.  Wishbone roots: wishbone.Decoder (data width "
               "16/32, granularity 8/16) over 0-2 SRAMs and a WishboneCSRBridge over such a CSR tree; one transfer with "
-              "symbolic adr/sel/we/dat_w held until acknowledged, from reset",
+              "symbolic adr/sel/we/dat_w held until acknowledged, from reset; and two such transfers back to back (the "
+              "second presented in the cycle after the first acknowledge, strobe held through the acknowledge cycle)",
     "outside": "depth > 3, more than 3 windows per decoder, data width 64, Wishbone interfaces with clamped address "
                "width, sparse / finer-granularity windows (C07's excluded domain), explicit window addresses that are "
                "not multiples of the window size",
@@ -429,7 +430,77 @@ def wb_queries(h, cfg):
     def twin(h, fr):
         a, _ = transfer(h, fr)
         return a, z3.Or(*[is1(f.sig(h.bus.ack)) for f in fr])
-    qs = [Q("one-transfer-reaches-exactly-the-mapped-leaves", T, transfer, init="reset", twin=twin if windows(h) else None)]
+    def two_transfers(h, fr):
+        """transfer A from reset, held until acknowledged (or for the whole first half when nobody answers);
+        transfer B, with fresh symbolic adr/sel/we/dat_w, is presented in the very next cycle and held likewise.
+        Every leaf strobes exactly as often as A and B together select it; B is acknowledged iff B is in a window."""
+        bus = h.bus
+        f0 = fr[0]
+        half = len(fr) // 2
+        a = [is1(f0.sig(bus.cyc)), is1(f0.sig(bus.stb))]
+        fields = ("adr", "we", "sel", "dat_w")
+        val = lambda f, n: f.sig(getattr(bus, n))
+        A = {n: val(f0, n) for n in fields}
+        B = {n: None for n in fields}
+        # phase: 0 = A pending, 1 = B pending, 2 = done
+        phase = bv(2, 0)
+        ackedA = z3.BoolVal(False)
+        ackedB = z3.BoolVal(False)
+        curB = {n: val(f0, n) for n in fields}
+        startB = []
+        for t in range(1, len(fr)):
+            f = fr[t]
+            ack_prev = is1(fr[t - 1].sig(bus.ack))
+            # A ends when acknowledged, or at the half-way frame if nobody answers
+            endA = z3.And(phase == 0, z3.Or(ack_prev, z3.BoolVal(t == half)))
+            ackedA = z3.Or(ackedA, z3.And(phase == 0, ack_prev))
+            endB = z3.And(phase == 1, ack_prev)
+            ackedB = z3.Or(ackedB, endB)
+            sB = endA
+            startB.append(sB)
+            req = z3.And(is1(f.sig(bus.cyc)), is1(f.sig(bus.stb)))
+            holdA = z3.And(req, *[val(f, n) == A[n] for n in fields])
+            holdB = z3.And(req, *[val(f, n) == curB[n] for n in fields])
+            idle_ = z3.And(f.sig(bus.cyc) == 0, f.sig(bus.stb) == 0)
+            a.append(z3.If(sB, req, z3.If(endB, idle_, z3.If(phase == 0, holdA, z3.If(phase == 1, holdB, idle_)))))
+            curB = {n: z3.If(sB, val(f, n), curB[n]) for n in fields}
+            phase = z3.If(sB, bv(2, 1), z3.If(endB, bv(2, 2), phase))
+        Bv = curB
+
+        def selected(req, g):
+            base = zext(req["adr"], GW) * bv(GW, r)
+            return z3.Or(*[z3.And(base + bv(GW, k) == bv(GW, g), z3.Extract(k, k, req["sel"]) == 1) for k in range(r)])
+        startedB = z3.Or(*startB)
+        bad = []
+        one, zero = bv(5, 1), bv(5, 0)
+        for R, s, e, w in h.leaves:
+            el = R.element
+            if el.access.readable():
+                n_r = sum([z3.If(is1(f.sig(el.r_stb)), one, zero) for f in fr], zero)
+                exp = z3.If(z3.And(selected(A, s), A["we"] == 0), one, zero) + \
+                    z3.If(z3.And(startedB, selected(Bv, s), Bv["we"] == 0), one, zero)
+                bad.append(n_r != exp)
+            if el.access.writable():
+                n_w = sum([z3.If(is1(f.sig(el.w_stb)), one, zero) for f in fr], zero)
+                exp = z3.If(z3.And(selected(A, e - 1), A["we"] == 1), one, zero) + \
+                    z3.If(z3.And(startedB, selected(Bv, e - 1), Bv["we"] == 1), one, zero)
+                bad.append(n_w != exp)
+        baseB = zext(Bv["adr"], GW) * bv(GW, r)
+        inwinB = z3.Or(*[z3.And(z3.UGE(baseB, bv(GW, s)), z3.ULT(baseB, bv(GW, e))) for s, e in windows(h)]) \
+            if windows(h) else z3.BoolVal(False)
+        bad.append(z3.And(startedB, z3.Not(inwinB), ackedB))
+        return a, z3.Or(*bad), z3.And(ackedA, ackedB)
+
+    def two_build(h, fr):
+        a, b, _ = two_transfers(h, fr)
+        return a, b
+
+    def two_twin(h, fr):
+        a, _, both = two_transfers(h, fr)
+        return a, both
+    qs = [Q("one-transfer-reaches-exactly-the-mapped-leaves", T, transfer, init="reset", twin=twin if windows(h) else None),
+          Q("two-back-to-back-transfers", 2 * (r + 3) + 1, two_build, init="reset",
+            twin=two_twin if any(w_[0] != w_[1] for w_ in windows(h)) else None)]
 
     def outside(h, fr):
         # (the acknowledge half of "unassigned addresses are never acknowledged" needs a protocol-abiding
